@@ -277,6 +277,31 @@ def h_network(ctx, nsw, nframes, buffers):
   ctx.witness('done')
 
 
+def h_burst(ctx, nburst, buffers):
+  """a burst: `nburst` long frames of one known conversation arrive back to back before the controller reads its socket, so their packet-ins
+  (146 bytes each) reach the controller in recv()-sized pieces that end in the middle of a message - also in the middle of a header.  Every
+  frame is still forwarded once, to the port where its destination was seen, in order; no buffer stays occupied; the connection survives."""
+  net = Net(ctx, buffers)
+  A = b'\x02\x00\x00\x00\x00\x0a'; B = b'\x02\x00\x00\x00\x00\x0b'
+  pa = ctx.int('portA', 1, NPORTS); pb = ctx.int('portB', 1, NPORTS)
+  ctx.assume(pa != pb)
+  def frame(i, s, d, tag): return env.tobytes(ctx, list(d) + list(s) + [0x08, 0x01, i, tag] + [(7 * k + i) & 0xff for k in range(152)])
+  net.sw.rx_packet(net.pkt.ethernet(frame(0, A, b'\xff' * 6, 0)), int(pa)); net.pump()       # A announces itself
+  del net.outs[:]
+  raws = []
+  for i in range(nburst):
+    raw = frame(1 + i, B, A, ctx.int('tag%d' % i, 0, 255) if i in (0, nburst - 1) else i); raws.append(raw)
+    net.sw.rx_packet(net.pkt.ethernet(raw), int(pb))                                        # no pump: the controller has not read yet
+  ctx.check('the packet-ins of the burst are waiting in one piece longer than a recv() buffer', len(net.w.send_buf) > 2048 or nburst < 15)
+  net.pump()
+  ctx.check('the controller kept the connection', net.nexus.getConnection(7) is net.con and not net.con.disconnected)
+  ctx.check('every frame of the burst was forwarded exactly once, to the port where its destination was seen, in order',
+            len(net.outs) == nburst and all(p == int(pa) and bool(ctx.Eq(b, r)) for (p, b), r in zip(net.outs, raws)))
+  ctx.check('no OpenFlow error was raised', not net.errors)
+  ctx.check('no packet buffer left occupied', all(x is None for x in net.sw._packet_buffer))
+  ctx.witness('done')
+
+
 def h_delayed(ctx, buffers, nheld):
   """Several packet-ins outstanding at once (a control channel slower than the data plane): three hosts are learned in lock step, then
   `nheld` frames of different conversations miss the table back to back before any answer of the controller reaches the switch; the answers
@@ -321,7 +346,9 @@ def obligations(tier):
                       ingress="symbolic port", gaps="0..45 s symbolic with an expiry sweep before each frame (sweep cases)", buffering=sorted({c['buffers'] for c in cases}), frame_lengths=[18, 168], miss_send_len=128)
   dl = [dict(buffers=b, nheld=k) for b in (0, 1, 2, 3) for k in ((2, 3) if thorough else (2,))]
   nw = [dict(nsw=2, nframes=2, buffers=2), dict(nsw=2, nframes=2, buffers=0)] + ([dict(nsw=3, nframes=2, buffers=1), dict(nsw=2, nframes=3, buffers=2)] if thorough else [])
-  return [Obligation('O3_network', h_network, nw, witnesses=('done', 'flood', 'unicast-known', 'filtered', 'crossed-a-link', 'end-to-end-unicast'), max_decisions=60000,
+  return [Obligation('O4_burst', h_burst, [dict(nburst=16, buffers=20), dict(nburst=16, buffers=4)] + ([dict(nburst=30, buffers=30)] if thorough else []), witnesses=('done',), max_decisions=40000,
+                     desc='a burst of 16 (30) long frames whose packet-ins reach the controller in recv()-sized pieces: all forwarded once, in order'),
+          Obligation('O3_network', h_network, nw, witnesses=('done', 'flood', 'unicast-known', 'filtered', 'crossed-a-link', 'end-to-end-unicast'), max_decisions=60000,
                      desc='a line of 2 (3) switches under one controller: every hop == the ideal bridge of that switch; end to end: no loop, no duplicate, floods reach every host port, a known host is reached'),
           Obligation('O2_outstanding', h_delayed, dl, witnesses=('done',), max_decisions=40000,
                      desc='several packet-ins outstanding at once (slow control channel), answered in order: each frame to its own destination, buffers released'),
